@@ -396,6 +396,10 @@ static struct rnode *rnode_atom(char **pat)
 		} else {
 			rnode->maxcnt = rnode->mincnt;
 		}
+		if (**pat != '}' || (rnode->maxcnt >= 0 && rnode->maxcnt < rnode->mincnt)) {
+			rnode_free(rnode);
+			return NULL;
+		}
 		++*pat;
 		if (rnode->mincnt > NREPS || rnode->maxcnt > NREPS) {
 			rnode_free(rnode);
